@@ -52,10 +52,14 @@ def judge(ctx, rep, mm):
                 # Ethereum lock / redeem transactions are protected by their tracker record (ongoing, then archived)
                 viol.append((k, s, "re-encoding of an executed Ethereum lock/redeem transaction accepted or took effect again (tracker record)"))
             elif s["same_parsed"]:
-                if ctx.known_finding("C05.reencoding_replay", ""):
+                # the known finding names the kinds whose content carries nothing that stays taken (a payment, a
+                # stake, a vote ...): only those are excused.  Every other kind is protected by a record of its own
+                # (a domain name, a proposal or request id, a conversation) and must refuse re-encodings for ever.
+                f = common.known("C05", "C05.reencoding_replay")
+                if f is not None and k["kind"] in f.get("kinds", []) and ctx.known_finding("C05.reencoding_replay", ""):
                     known_hits += 1
                 else:
-                    viol.append((k, s, "re-encoding of an executed transaction accepted or took effect again"))
+                    viol.append((k, s, "re-encoding of an executed transaction accepted or took effect again (its kind is protected by a record that stays taken)"))
     for k, s, what in viol[:3]:
         ctx.violation("%s_%s" % (k["kind"], s["name"].replace("@", "_")), {
             "kind": "signed-transaction-took-effect-twice", "what": what, "tx_kind": k["kind"], "resubmission": s["name"],
